@@ -93,7 +93,12 @@ int main(int argc, char** argv) {
     if (argc < 3) return 2;
     std::ifstream f(argv[1]);
     size_t start = strtoull(argv[2], nullptr, 10);
-    if (argc > 3 && argv[3][0] == '0') kGettersOnInvalid = false;
+    size_t quiet_until = argc > 3 ? strtoull(argv[3], nullptr, 10) : 0;
+#ifdef NDEBUG
+    const bool ndebug = true;
+#else
+    const bool ndebug = false;
+#endif
     std::string line;
     size_t k = 0;
     std::string out;
@@ -105,6 +110,7 @@ int main(int argc, char** argv) {
         printf("@%zu\n", k);
         fflush(stdout);
         out.clear();
+        kGettersOnInvalid = ndebug && k >= quiet_until;
         if (fn >= sizeof(OPS) / sizeof(OPS[0])) return 2;
         OPS[fn](arg, out);
         printf("=%s\n", out.c_str());
@@ -522,14 +528,14 @@ pub enum OpOut {
 /// deaths the remaining operations run with getters on *invalid* views switched off (only
 /// meaningful in the NDEBUG build, where they are on): returns the results and the index from
 /// which that mode was in force.
-fn run_driver(bin: &Path, task: &Path, n_ops: usize) -> (Vec<OpOut>, Option<usize>) {
-    run_driver_with(n_ops, GETTER_DEATHS, &bin.with_extension("out"), &|start, quiet| {
+fn run_driver(bin: &Path, task: &Path, n_ops: usize, unit_ends: &[usize]) -> (Vec<OpOut>, usize) {
+    run_driver_with(n_ops, GETTER_DEATHS, &bin.with_extension("out"), unit_ends, &|start, quiet_until| {
         let mut c = Command::new("timeout");
         c.args(["-s", "KILL", "120"])
             .arg(bin)
             .arg(task)
             .arg(start.to_string())
-            .arg(if quiet { "0" } else { "1" })
+            .arg(quiet_until.to_string())
             .env("ASAN_OPTIONS", "detect_leaks=0:abort_on_error=0:color=never:allocator_may_return_null=0:max_allocation_size_mb=1024")
             .env("UBSAN_OPTIONS", "print_stacktrace=0:color=never");
         c
@@ -538,14 +544,30 @@ fn run_driver(bin: &Path, task: &Path, n_ops: usize) -> (Vec<OpOut>, Option<usiz
 
 /// The announce/restart protocol shared by the out-of-process drivers (C++, Java): `make(start,
 /// quiet)` builds the command that executes the task file from operation `start`.
-pub fn run_driver_with(n_ops: usize, quiet_after: usize, out_file: &Path, make: &dyn Fn(usize, bool) -> Command) -> (Vec<OpOut>, Option<usize>) {
+pub fn run_driver_with(n_ops: usize, quiet_after: usize, out_file: &Path, unit_ends: &[usize], make: &dyn Fn(usize, usize) -> Command) -> (Vec<OpOut>, usize) {
     let mut res: Vec<OpOut> = vec![OpOut::NotRun; n_ops];
     let mut start = 0usize;
     let mut restarts = 0;
-    let mut quiet_from: Option<usize> = None;
+    // deaths are counted per unit (state): after `quiet_after` deaths the rest of *that unit*
+    // runs without getters on invalid views, after UNIT_DEATH_CAP its remaining operations are
+    // left unexecuted; other units of the group are not affected
+    let unit_end_of = |k: usize| unit_ends.iter().copied().find(|e| k < *e).unwrap_or(n_ops);
+    let mut cur_unit_end = unit_end_of(0);
+    let mut deaths_in_unit = 0usize;
+    let mut quiet_until = 0usize;
+    let mut quiet_ops = 0usize;
     while start < n_ops && restarts < DEATH_CAP {
-        if restarts >= quiet_after && quiet_from.is_none() {
-            quiet_from = Some(start);
+        if start >= cur_unit_end {
+            cur_unit_end = unit_end_of(start);
+            deaths_in_unit = 0;
+        }
+        if deaths_in_unit >= UNIT_DEATH_CAP {
+            start = cur_unit_end;
+            continue;
+        }
+        if deaths_in_unit >= quiet_after && quiet_until < cur_unit_end {
+            quiet_ops += cur_unit_end - start.max(quiet_until);
+            quiet_until = cur_unit_end;
         }
         // the driver's stdout goes to a file, not a pipe: it flushes after every announcement,
         // and a write into a pipe costs a context switch each time
@@ -553,7 +575,7 @@ pub fn run_driver_with(n_ops: usize, quiet_after: usize, out_file: &Path, make: 
             Ok(f) => f,
             Err(_) => break,
         };
-        let out = make(start, quiet_from.is_some()).stdout(of).output();
+        let out = make(start, quiet_until).stdout(of).output();
         let out = match out {
             Ok(o) => o,
             Err(_) => break,
@@ -584,13 +606,18 @@ pub fn run_driver_with(n_ops: usize, quiet_after: usize, out_file: &Path, make: 
         match cur {
             Some(k) if k < n_ops => {
                 res[k] = OpOut::Died(headline);
+                if k >= cur_unit_end {
+                    cur_unit_end = unit_end_of(k);
+                    deaths_in_unit = 0;
+                }
+                deaths_in_unit += 1;
                 start = k + 1;
             }
             _ => break,
         }
         restarts += 1;
     }
-    (res, quiet_from)
+    (res, quiet_ops)
 }
 
 fn death_headline(stderr: &str, code: Option<i32>) -> String {
@@ -636,7 +663,9 @@ fn death_headline(stderr: &str, code: Option<i32>) -> String {
 }
 
 /// deaths attributed per (state, build) before the rest of its operations is left unexecuted
-const DEATH_CAP: usize = 300;
+const DEATH_CAP: usize = 2000;
+/// deaths attributed to one state before its remaining operations are left unexecuted
+const UNIT_DEATH_CAP: usize = 60;
 /// deaths after which getters are no longer called on invalid views (NDEBUG build)
 const GETTER_DEATHS: usize = 4;
 
@@ -848,7 +877,7 @@ pub fn prepare(st: &Selected, hdr: &Path, thorough: bool, skipped_unspecified: &
 type Verdicts = (Reporter, BTreeMap<String, usize>, Option<J>);
 
 /// Evaluate every oracle on the driver's observations of one state.
-fn evaluate(u: &Unit, res_a: &[OpOut], res_n: &[OpOut], quiet_from: Option<usize>, machinery_errors: &std::sync::atomic::AtomicUsize) -> Verdicts {
+fn evaluate(u: &Unit, res_a: &[OpOut], res_n: &[OpOut], quiet_ops: usize, machinery_errors: &std::sync::atomic::AtomicUsize) -> Verdicts {
     let mut rep = Reporter::new("C14");
     let mut c: BTreeMap<String, usize> = BTreeMap::new();
     let st = &u.st;
@@ -858,8 +887,8 @@ fn evaluate(u: &Unit, res_a: &[OpOut], res_n: &[OpOut], quiet_from: Option<usize
     let ops = &u.ops;
     let base = |big: bool, ty: &str| json!({"state": st.id, "family": st.family, "endianness": if big {"big"} else {"little"}, "type": ty, "source": if big { text_be } else { text_le }});
     *c.entry("states-compiled".into()).or_default() += 1;
-    if let Some(q) = quiet_from {
-        *c.entry("ndebug-ops-run-without-getters-on-invalid-views".into()).or_default() += ops.len().saturating_sub(q);
+    if quiet_ops > 0 {
+        *c.entry("ndebug-ops-run-without-getters-on-invalid-views".into()).or_default() += quiet_ops;
     }
     let mut inc = |k: &str| *c.entry(k.to_string()).or_default() += 1;
     let mut rare_cache: std::collections::HashMap<(bool, String), Vec<&str>> = std::collections::HashMap::new();
@@ -1114,7 +1143,7 @@ fn compile_failure(u: &Unit, err: &str) -> Verdicts {
 /// observations of the assert build and (if requested) the NDEBUG build.
 pub enum Raw {
     CompileError(String),
-    Ran { res_a: Vec<OpOut>, res_n: Option<Vec<OpOut>>, quiet_from: Option<usize> },
+    Ran { res_a: Vec<OpOut>, res_n: Option<Vec<OpOut>>, quiet_ops: usize },
 }
 
 pub struct Timers {
@@ -1173,21 +1202,26 @@ pub fn run_group_raw(units: &[&Unit], dir: &Path, hdr: &Path, thorough: bool, wa
     let n_ops: usize = units.iter().map(|u| u.ops.len()).sum();
     let tf = dir.join("task.txt");
     let t1 = std::time::Instant::now();
-    let (res_a, _) = run_driver(built.asserts.as_ref().unwrap(), &tf, n_ops);
-    let (res_n, quiet_from) = match &built.ndebug {
+    let mut unit_ends: Vec<usize> = vec![];
+    let mut acc = 0usize;
+    for u in units {
+        acc += u.ops.len();
+        unit_ends.push(acc);
+    }
+    let (res_a, _) = run_driver(built.asserts.as_ref().unwrap(), &tf, n_ops, &unit_ends);
+    let (res_n, quiet_ops) = match &built.ndebug {
         Some(b) => {
-            let (r, q) = run_driver(b, &tf, n_ops);
+            let (r, q) = run_driver(b, &tf, n_ops, &unit_ends);
             (Some(r), q)
         }
-        None => (None, None),
+        None => (None, 0),
     };
     t.run.fetch_add(t1.elapsed().as_millis() as u64, std::sync::atomic::Ordering::Relaxed);
     let mut out = vec![];
     let mut off = 0usize;
-    for u in units {
+    for (i, u) in units.iter().enumerate() {
         let n = u.ops.len();
-        let q = quiet_from.and_then(|q| if q < off + n { Some(q.saturating_sub(off)) } else { None });
-        out.push(Raw::Ran { res_a: res_a[off..off + n].to_vec(), res_n: res_n.as_ref().map(|r| r[off..off + n].to_vec()), quiet_from: q });
+        out.push(Raw::Ran { res_a: res_a[off..off + n].to_vec(), res_n: res_n.as_ref().map(|r| r[off..off + n].to_vec()), quiet_ops: if i == 0 { quiet_ops } else { 0 } });
         off += n;
     }
     out
@@ -1199,7 +1233,7 @@ fn run_group(units: &[&Unit], dir: &Path, hdr: &Path, thorough: bool, t: &Timers
         .zip(units)
         .map(|(raw, u)| match raw {
             Raw::CompileError(e) => compile_failure(u, &e),
-            Raw::Ran { res_a, res_n, quiet_from } => evaluate(u, &res_a, res_n.as_deref().unwrap_or(&[]), quiet_from, machinery_errors),
+            Raw::Ran { res_a, res_n, quiet_ops } => evaluate(u, &res_a, res_n.as_deref().unwrap_or(&[]), quiet_ops, machinery_errors),
         })
         .collect()
 }
